@@ -29,7 +29,12 @@ def run(ck, ctx):
     ck.rule("R18.7", "the per-round limit bounds what is sent, not what is examined: in anti_entropy.rs a take/skip/step_by never "
                      "sits between the key map and the divergent-bucket filter (with a stable iteration order a bounded scan "
                      "never reaches the divergent keys behind it, and repeating the round does not help)")
-    ck.nd("termination within finitely many rounds under max_keys_per_sync (iteration order at run time); hash collisions")
+    ck.rule("R18.8", "a bounded selection must be able to make progress: where the keys shipped in one round are `take(limit)` of an "
+                     "iteration over the key map, something in front of the take must depend on what earlier rounds achieved (a resume "
+                     "point / skip, or a test against the peer's view of the key); a prefix of a stable iteration order filtered by bucket "
+                     "only is the same prefix every round, so when the divergent buckets hold more keys than the limit and the differing "
+                     "keys lie behind it, no number of rounds completes the sync")
+    ck.nd("the number of rounds needed when progress is possible; hash collisions")
     for cfg in ctx.configs:
         prog = ctx.prog(cfg)
         ck.configs.append(cfg)
@@ -301,6 +306,34 @@ def _rules(ck, prog, cfg):
                          "divergent key stored behind it is never shipped and the replicas' digests never become equal" % cut,
                          ff.where(t["ln"]), detail="filter over %s" % list(reversed(names)))
     ck.floor("R18.7" + _tag(cfg), n7, 2)
+    # ---- R18.8 bounded selection can make progress
+    n8 = 0
+    for f in prog.lib_fns():
+        if not f.file.endswith("replication/anti_entropy.rs") or "{closure" in f.id:
+            continue
+        stuck = []
+        for ff in prog.with_children(f):
+            for b, t in ff.calls():
+                if not is_callee(t, r"Iterator>?::take(::<.*>)?$"):
+                    continue
+                lim = src_of_operand(ff, t["args"][1], through_calls=TRANSPARENT)
+                if "max_keys_per_sync" not in lim.fields:
+                    continue
+                n8 += 1
+                ch = iter_chain(ff, t["args"][0])
+                names = [n for n, _ in ch]
+                src_t = ch[-1][1] if ch else None
+                hashed = src_t is not None and is_callee(src_t, r"HashMap::<.*>::(iter|keys|values)$", r"HashMap<.*> as std::iter::IntoIterator>::into_iter$")
+                resume = [n for n in names if n in ("skip", "skip_while", "range", "cycle")]
+                if hashed and not resume:
+                    stuck.append((ff, t, names))
+        if stuck:
+            ff, t, names = stuck[0]
+            ck.bad("R18.8", "%s:bounded-prefix-without-resume%s" % (f.id.replace("replication::anti_entropy::", ""), _tag(cfg)),
+                   "the keys shipped per round are the first max_keys_per_sync of a HashMap iteration filtered by bucket only (%s): the same "
+                   "prefix is selected in every round, so a differing key stored behind it is never shipped and the exchange never completes "
+                   "(witness: witness/kf_witness_3.rs)" % list(reversed(names)), ff.where(t["ln"]), sites=len(stuck))
+    ck.ok("R18.8", "scan" + _tag(cfg), "%d bounded selections examined" % n8)
 
 
 def _ops(rv):
